@@ -119,3 +119,18 @@ package dns
 //@   dyncalls noeffect
 //@   trustframe
 //@   at call Match#1 assert a1 == qname && a2 == qtype
+
+// C07 (lowering of a qname condition): the domain set registered with the domain matcher carries the index
+// of the rule slot that is appended right after it, so the matcher's bit for that set and the rule that
+// reads the bit are the same position; the slot keeps the condition's negation and the rule's upstream.
+//@ func (*RequestMatcherBuilder).addQName
+//@   requires b != nil && f != nil && upstream != nil
+//@   anchorsonly
+//@   dyncalls noeffect
+//@   modifies *
+//@   at call builtin:append#1 assert a0 == b.simulatedDomainSet && a1[0].RuleIndex == len(b.rules) && a1[0].Key == key && a1[0].Domains == values
+//@   at call upstreamToId#1 assert a1 == upstream.Name
+//@   at call builtin:append#2 assert a0 == b.rules && a1[0].Type == consts.MatchType_DomainSet
+//@   at call builtin:append#2 assert a1[0].Not == f.Not
+//@   at call builtin:append#2 assert 0 <= upstreamId && upstreamId < 256 ==> a1[0].Upstream == upstreamId
+//@   ensures err == nil ==> calls("builtin:append") == 2
